@@ -563,6 +563,17 @@ func (v *verifier) processSignature(ctx context.Context, sigBlob []byte, envelop
 			return processPluginResponse(capabilitiesToVerify, response, outcome)
 		}
 	}
+
+	// the signature does not name a verification plugin, so nothing can
+	// process its extended attributes: a critical one must fail the
+	// verification
+	if installedPlugin == nil {
+		for _, attr := range getNonPluginExtendedCriticalAttributes(&outcome.EnvelopeContent.SignerInfo) {
+			if attr.Critical {
+				return fmt.Errorf("extended critical attribute %q cannot be processed (the signature does not specify a verification plugin to process it)", attr.Key)
+			}
+		}
+	}
 	return nil
 }
 
